@@ -467,6 +467,9 @@ def run(rep, rng, tier):
     def bw_case(site, kind, s, f, ratio, args, obj):
         nonlocal fragile
         s = np.asarray(s, dtype=float)
+        if not np.all(np.isfinite(s)):       # a smoothed spectrum must be finite (the f == fc entry is replaced, never evaluated)
+            viol(site, args, 'non-finite smoothed spectrum %r' % (s.tolist(),))
+            return
         mx = max(s)
         if kind == 3:
             lf, le = mx * ratio, frac(mx) * frac(ratio)
